@@ -75,239 +75,242 @@ func CheckElt[E comparable](t *rapid.T, ty *EltType[E], backends []EltOps[E]) {
 	x0, y0, junk := ty.From(xv), ty.From(yv), ty.From(jv)
 	xm, ym := Mod(xv, p), Mod(yv, p)
 
+	drawn := alias
 	for i := range backends {
-		be := &backends[i]
-		c := &Case{T: t, Type: f.Name, Op: op, Backend: be.Backend, Alias: alias}
-		res := func(e *E) *big.Int { return Mod(ty.To(e), p) }
-		same := func(what string, e *E, want *big.Int) bool {
-			// operands that are not the destination must keep their residue
-			if res(e).Cmp(want) != 0 {
-				c.Fail("operand-clobbered", fmt.Sprintf("%s changed to 0x%x", what, ty.To(e)))
-				return false
+		for _, alias := range Patterns(drawn) {
+			be := &backends[i]
+			c := &Case{T: t, Type: f.Name, Op: op, Backend: be.Backend, Alias: alias}
+			res := func(e *E) *big.Int { return Mod(ty.To(e), p) }
+			same := func(what string, e *E, want *big.Int) bool {
+				// operands that are not the destination must keep their residue
+				if res(e).Cmp(want) != 0 {
+					c.Fail("operand-clobbered", fmt.Sprintf("%s changed to 0x%x", what, ty.To(e)))
+					return false
+				}
+				return true
 			}
-			return true
-		}
-		if be.Select != nil {
-			be.Select()
-		}
-		ran := true
-		switch op {
-		case "Add", "Sub", "Mul":
-			fn := map[string]func(z, x, y *E){"Add": be.Add, "Sub": be.Sub, "Mul": be.Mul}[op]
-			if fn == nil {
-				ran = false
-				break
+			if be.Select != nil {
+				be.Select()
 			}
-			c.Vals, c.Classes = []*big.Int{xv, yv}, []string{xc, yc}
-			z, xo, yo := Bin(alias, fn, x0, y0, junk)
-			want := new(big.Int)
+			ran := true
 			switch op {
-			case "Add":
-				want.Add(xm, ym)
-			case "Sub":
-				want.Sub(xm, ym)
-			case "Mul":
-				want.Mul(xm, ym)
-			}
-			want.Mod(want, p)
-			if !c.Expect("residue", res(&z), want) {
-				return
-			}
-			if alias == AliasNone || alias == AliasZY || alias == AliasXY {
-				if !same("x", &xo, xm) {
-					return
+			case "Add", "Sub", "Mul":
+				fn := map[string]func(z, x, y *E){"Add": be.Add, "Sub": be.Sub, "Mul": be.Mul}[op]
+				if fn == nil {
+					ran = false
+					break
 				}
-			}
-			if alias == AliasNone || alias == AliasZX {
-				if !same("y", &yo, ym) {
-					return
+				c.Vals, c.Classes = []*big.Int{xv, yv}, []string{xc, yc}
+				z, xo, yo := Bin(alias, fn, x0, y0, junk)
+				want := new(big.Int)
+				switch op {
+				case "Add":
+					want.Add(xm, ym)
+				case "Sub":
+					want.Sub(xm, ym)
+				case "Mul":
+					want.Mul(xm, ym)
 				}
-			}
-		case "Sqr", "Neg", "Inv":
-			fn := map[string]func(z, x *E){"Sqr": be.Sqr, "Neg": be.Neg, "Inv": be.Inv}[op]
-			if fn == nil {
-				ran = false
-				break
-			}
-			c.Vals, c.Classes = []*big.Int{xv}, []string{xc}
-			z, xo := Un(alias, fn, x0, junk)
-			want := new(big.Int)
-			switch op {
-			case "Sqr":
-				want.Mul(xm, xm)
-			case "Neg":
-				want.Neg(xm)
-			case "Inv":
-				if xm.Sign() == 0 {
-					// 1/0 is not defined by the documentation: only counted
-					vlib.Class(f.Name, "inv-of-zero(not asserted)")
-					want = nil
-				} else {
-					want.ModInverse(xm, p)
-				}
-			}
-			if want != nil {
 				want.Mod(want, p)
 				if !c.Expect("residue", res(&z), want) {
 					return
 				}
-			}
-			if alias == AliasNone && !same("x", &xo, xm) {
-				return
-			}
-		case "Modp":
-			if be.Modp == nil {
-				ran = false
-				break
-			}
-			c.Vals, c.Classes = []*big.Int{xv}, []string{xc}
-			z := x0
-			be.Modp(&z)
-			// canonical: the integer value itself must be the residue
-			if !c.Expect("canonical", ty.To(&z), xm) {
-				return
-			}
-		case "AddSub":
-			if be.AddSub == nil {
-				ran = false
-				break
-			}
-			c.Vals, c.Classes = []*big.Int{xv, yv}, []string{xc, yc}
-			a, b := x0, y0
-			be.AddSub(&a, &b)
-			s := new(big.Int).Add(xm, ym)
-			d := new(big.Int).Sub(xm, ym)
-			if !c.Expect("sum", res(&a), s.Mod(s, p)) || !c.Expect("difference", res(&b), d.Mod(d, p)) {
-				return
-			}
-		case "Cmov", "Cswap":
-			fn := be.Cmov
-			if op == "Cswap" {
-				fn = be.Cswap
-			}
-			if fn == nil {
-				ran = false
-				break
-			}
-			c.Vals, c.Classes = []*big.Int{xv, yv, big.NewInt(int64(sel))}, []string{xc, yc, "sel"}
-			a, b := x0, y0
-			fn(&a, &b, sel)
-			wa, wb := x0, y0
-			if sel == 1 {
-				wa = y0
-				if op == "Cswap" {
-					wb = x0
-				}
-			}
-			// selection is exact (byte for byte), not only modulo p
-			if a != wa || b != wb {
-				c.Fail("wrong-selection", fmt.Sprintf("after: x=0x%x y=0x%x", ty.To(&a), ty.To(&b)))
-				return
-			}
-		case "InvSqrt":
-			if be.InvSqrt == nil {
-				ran = false
-				break
-			}
-			c.Vals, c.Classes = []*big.Int{xv, yv}, []string{xc, yc}
-			var z E
-			var isQR bool
-			a, b, cc := x0, y0, junk
-			switch alias {
-			case AliasZX:
-				isQR = be.InvSqrt(&a, &a, &b)
-				z = a
-			case AliasZY:
-				isQR = be.InvSqrt(&b, &a, &b)
-				z = b
-			default:
-				isQR = be.InvSqrt(&cc, &a, &b)
-				z = cc
-			}
-			if ym.Sign() == 0 {
-				vlib.Class(f.Name, "invsqrt-y=0(not asserted)")
-				break
-			}
-			// q = x/y ; z²·y must equal x (QR) — for fp448 −x when non-residue
-			q := new(big.Int).ModInverse(ym, p)
-			q.Mul(q, xm).Mod(q, p)
-			wantQR := q.Sign() == 0 || big.Jacobi(q, p) == 1
-			if isQR != wantQR {
-				c.Fail("wrong-isQR", fmt.Sprintf("isQR=%v, x/y=0x%x Legendre=%d", isQR, q, big.Jacobi(q, p)))
-				return
-			}
-			zv := res(&z)
-			lhs := new(big.Int).Mul(zv, zv)
-			lhs.Mul(lhs, ym).Mod(lhs, p)
-			if wantQR {
-				vlib.Class(f.Name, "invsqrt-QR")
-				if !c.Expect("sqrt", lhs, xm) {
-					return
-				}
-			} else {
-				vlib.Class(f.Name, "invsqrt-nonQR")
-				if ty.InvSqrtNonQR == "sqrt(-x/y)" {
-					nx := new(big.Int).Neg(xm)
-					if !c.Expect("sqrt-of-minus", lhs, nx.Mod(nx, p)) {
+				if alias == AliasNone || alias == AliasZY || alias == AliasXY {
+					if !same("x", &xo, xm) {
 						return
 					}
 				}
+				if alias == AliasNone || alias == AliasZX {
+					if !same("y", &yo, ym) {
+						return
+					}
+				}
+			case "Sqr", "Neg", "Inv":
+				fn := map[string]func(z, x *E){"Sqr": be.Sqr, "Neg": be.Neg, "Inv": be.Inv}[op]
+				if fn == nil {
+					ran = false
+					break
+				}
+				c.Vals, c.Classes = []*big.Int{xv}, []string{xc}
+				z, xo := Un(alias, fn, x0, junk)
+				want := new(big.Int)
+				switch op {
+				case "Sqr":
+					want.Mul(xm, xm)
+				case "Neg":
+					want.Neg(xm)
+				case "Inv":
+					if xm.Sign() == 0 {
+						// 1/0 is not defined by the documentation: only counted
+						vlib.Class(f.Name, "inv-of-zero(not asserted)")
+						want = nil
+					} else {
+						want.ModInverse(xm, p)
+					}
+				}
+				if want != nil {
+					want.Mod(want, p)
+					if !c.Expect("residue", res(&z), want) {
+						return
+					}
+				}
+				if alias == AliasNone && !same("x", &xo, xm) {
+					return
+				}
+			case "Modp":
+				if be.Modp == nil {
+					ran = false
+					break
+				}
+				c.Vals, c.Classes = []*big.Int{xv}, []string{xc}
+				z := x0
+				be.Modp(&z)
+				// canonical: the integer value itself must be the residue
+				if !c.Expect("canonical", ty.To(&z), xm) {
+					return
+				}
+			case "AddSub":
+				if be.AddSub == nil {
+					ran = false
+					break
+				}
+				c.Vals, c.Classes = []*big.Int{xv, yv}, []string{xc, yc}
+				a, b := x0, y0
+				be.AddSub(&a, &b)
+				s := new(big.Int).Add(xm, ym)
+				d := new(big.Int).Sub(xm, ym)
+				if !c.Expect("sum", res(&a), s.Mod(s, p)) || !c.Expect("difference", res(&b), d.Mod(d, p)) {
+					return
+				}
+			case "Cmov", "Cswap":
+				fn := be.Cmov
+				if op == "Cswap" {
+					fn = be.Cswap
+				}
+				if fn == nil {
+					ran = false
+					break
+				}
+				c.Vals, c.Classes = []*big.Int{xv, yv, big.NewInt(int64(sel))}, []string{xc, yc, "sel"}
+				a, b := x0, y0
+				fn(&a, &b, sel)
+				wa, wb := x0, y0
+				if sel == 1 {
+					wa = y0
+					if op == "Cswap" {
+						wb = x0
+					}
+				}
+				// selection is exact (byte for byte), not only modulo p
+				if a != wa || b != wb {
+					c.Fail("wrong-selection", fmt.Sprintf("after: x=0x%x y=0x%x", ty.To(&a), ty.To(&b)))
+					return
+				}
+			case "InvSqrt":
+				if be.InvSqrt == nil {
+					ran = false
+					break
+				}
+				c.Vals, c.Classes = []*big.Int{xv, yv}, []string{xc, yc}
+				var z E
+				var isQR bool
+				a, b, cc := x0, y0, junk
+				switch alias {
+				case AliasZX:
+					isQR = be.InvSqrt(&a, &a, &b)
+					z = a
+				case AliasZY:
+					isQR = be.InvSqrt(&b, &a, &b)
+					z = b
+				default:
+					isQR = be.InvSqrt(&cc, &a, &b)
+					z = cc
+				}
+				if ym.Sign() == 0 {
+					vlib.Class(f.Name, "invsqrt-y=0(not asserted)")
+					break
+				}
+				// q = x/y ; z²·y must equal x (QR) — for fp448 −x when non-residue
+				q := new(big.Int).ModInverse(ym, p)
+				q.Mul(q, xm).Mod(q, p)
+				wantQR := q.Sign() == 0 || big.Jacobi(q, p) == 1
+				if isQR != wantQR {
+					c.Fail("wrong-isQR", fmt.Sprintf("isQR=%v, x/y=0x%x Legendre=%d", isQR, q, big.Jacobi(q, p)))
+					return
+				}
+				zv := res(&z)
+				lhs := new(big.Int).Mul(zv, zv)
+				lhs.Mul(lhs, ym).Mod(lhs, p)
+				if wantQR {
+					vlib.Class(f.Name, "invsqrt-QR")
+					if !c.Expect("sqrt", lhs, xm) {
+						return
+					}
+				} else {
+					vlib.Class(f.Name, "invsqrt-nonQR")
+					if ty.InvSqrtNonQR == "sqrt(-x/y)" {
+						nx := new(big.Int).Neg(xm)
+						if !c.Expect("sqrt-of-minus", lhs, nx.Mod(nx, p)) {
+							return
+						}
+					}
+				}
+			case "IsZero", "IsOne":
+				fn := be.IsZero
+				target := int64(0)
+				if op == "IsOne" {
+					fn, target = be.IsOne, 1
+				}
+				if fn == nil {
+					ran = false
+					break
+				}
+				c.Vals, c.Classes = []*big.Int{xv}, []string{xc}
+				a := x0
+				got := fn(&a)
+				want := xm.Cmp(big.NewInt(target)) == 0
+				vlib.Class(f.Name, fmt.Sprintf("%s=%v", op, want))
+				if got != want {
+					c.Fail("wrong-predicate", fmt.Sprintf("got %v want %v", got, want))
+					return
+				}
+				if !same("x", &a, xm) {
+					return
+				}
+			case "ToBytes":
+				if be.ToBytes == nil {
+					ran = false
+					break
+				}
+				c.Vals, c.Classes = []*big.Int{xv}, []string{xc}
+				a := x0
+				buf := make([]byte, ty.Size)
+				if err := be.ToBytes(buf, &a); err != nil {
+					c.Fail("unexpected-error", err.Error())
+					return
+				}
+				if !bytes.Equal(buf, vlib.LE(xm, ty.Size)) {
+					c.Fail("wrong-canonical", fmt.Sprintf("ToBytes gave %x", buf))
+					return
+				}
+				if !same("x", &a, xm) {
+					return
+				}
+			case "SetOne":
+				if be.SetOne == nil {
+					ran = false
+					break
+				}
+				c.Vals, c.Classes = []*big.Int{jv}, []string{"junk"}
+				a := junk
+				be.SetOne(&a)
+				if !c.Expect("one", ty.To(&a), big.NewInt(1)) {
+					return
+				}
 			}
-		case "IsZero", "IsOne":
-			fn := be.IsZero
-			target := int64(0)
-			if op == "IsOne" {
-				fn, target = be.IsOne, 1
+			if ran {
+				c.Done()
 			}
-			if fn == nil {
-				ran = false
-				break
-			}
-			c.Vals, c.Classes = []*big.Int{xv}, []string{xc}
-			a := x0
-			got := fn(&a)
-			want := xm.Cmp(big.NewInt(target)) == 0
-			vlib.Class(f.Name, fmt.Sprintf("%s=%v", op, want))
-			if got != want {
-				c.Fail("wrong-predicate", fmt.Sprintf("got %v want %v", got, want))
-				return
-			}
-			if !same("x", &a, xm) {
-				return
-			}
-		case "ToBytes":
-			if be.ToBytes == nil {
-				ran = false
-				break
-			}
-			c.Vals, c.Classes = []*big.Int{xv}, []string{xc}
-			a := x0
-			buf := make([]byte, ty.Size)
-			if err := be.ToBytes(buf, &a); err != nil {
-				c.Fail("unexpected-error", err.Error())
-				return
-			}
-			if !bytes.Equal(buf, vlib.LE(xm, ty.Size)) {
-				c.Fail("wrong-canonical", fmt.Sprintf("ToBytes gave %x", buf))
-				return
-			}
-			if !same("x", &a, xm) {
-				return
-			}
-		case "SetOne":
-			if be.SetOne == nil {
-				ran = false
-				break
-			}
-			c.Vals, c.Classes = []*big.Int{jv}, []string{"junk"}
-			a := junk
-			be.SetOne(&a)
-			if !c.Expect("one", ty.To(&a), big.NewInt(1)) {
-				return
-			}
-		}
-		if ran {
-			c.Done()
 		}
 	}
 }
